@@ -107,7 +107,7 @@ func (d *Dumper) begin() {
 	d.locals = map[types.Object]int{}
 	d.Exprs, d.Defs, d.Clauses = nil, nil, nil
 }
-func (d *Dumper) w(s string)  { d.sb.WriteString(s) }
+func (d *Dumper) w(s string) { d.sb.WriteString(s) }
 
 func (d *Dumper) typeSpec(s *ast.TypeSpec) {
 	o := d.Info.Defs[s.Name]
